@@ -402,7 +402,7 @@ func runGo(dir string, n int) (*goResult, error) {
 	trimCache()
 	trimMu.Unlock()
 	if err != nil {
-		return nil, fmt.Errorf("%w: go build failed: %v\n%s", errHarness, err, out)
+		return nil, fmt.Errorf("%w: go build failed: %v\n%s%s", errHarness, err, out, buildContext(dir, string(out)))
 	}
 	run := exec.CommandContext(ctx, bin)
 	run.Dir = dir
@@ -451,6 +451,29 @@ func runGo(dir string, n int) (*goResult, error) {
 		return nil, fmt.Errorf("%w: generated Go program did not finish:\n%s", errHarness, stderr.String())
 	}
 	return res, nil
+}
+
+var buildLoc = regexp.MustCompile(`(p[0-9]+/prog\.go):([0-9]+):`)
+
+// buildContext quotes the source lines a compiler message points at.
+func buildContext(dir, out string) string {
+	var sb strings.Builder
+	for i, m := range buildLoc.FindAllStringSubmatch(out, 4) {
+		if i > 3 {
+			break
+		}
+		b, err := os.ReadFile(filepath.Join(dir, m[1]))
+		if err != nil {
+			continue
+		}
+		ln, _ := strconv.Atoi(m[2])
+		lines := strings.Split(string(b), "\n")
+		fmt.Fprintf(&sb, "--- %s:%d\n", m[1], ln)
+		for j := max(ln-8, 1); j <= min(ln+3, len(lines)); j++ {
+			fmt.Fprintf(&sb, "%4d %s\n", j, lines[j-1])
+		}
+	}
+	return sb.String()
 }
 
 // ---- neo-go side -----------------------------------------------------------------------------------
